@@ -27,12 +27,14 @@ FloatClose(a, b) ==
                  IN IF IAbsD(a.a[4].n - b.a[4].n) <= tol THEN "close" ELSE "far"
        ELSE IF IAbsD(a.a[6].n - b.a[6].n) = 1 THEN "unk" ELSE "far"
 Num(v) == v.k = "Dbl"
-One(it, t, env) ==
+One(it, t, env, edge) ==
     IF it.bexc # "" THEN "unk"
     ELSE LET val == Val(t, env)
              exact == val.t = "num" /\ ExactRat(val) /\ IAbs(val.re[1]) < 32768 /\ val.re[2] < 32768
              want == RatDbl(val.re)
-             lib == it.lib.exc = "" /\ Num(it.lib.v) /\ it.lib.v.s # "nan"
+             \* (at the special points - vanishing arguments, ties - only the specification decides: the library's evaluation
+             \*  of the substituted expression follows its own conventions where the function is undefined, atan2(0, 0))
+             lib == edge = 0 /\ it.lib.exc = "" /\ Num(it.lib.v) /\ it.lib.v.s # "nan"
              all == [i \in 1..Len(it.d) |-> it.d[i]] \o [i \in 1..Len(it.ld) |-> it.ld[i]]
              okd == {i \in 1..Len(all) : all[i].exc = "" /\ Num(all[i].v)}
              okf == {i \in 1..Len(it.f) : it.f[i].exc = "" /\ Num(it.f[i].v)}
@@ -48,12 +50,13 @@ One(it, t, env) ==
               IF lib /\ \E i \in okf : it.f[i].v.s # "nan" /\ FloatClose(it.f[i].v, it.lib.v) = "far" THEN "bad:value:float" ELSE "",
               IF okd # {} /\ it.rl.exc # "" THEN "bad:save-load:" \o it.rl.exc ELSE "",
               IF okd # {} /\ it.rl.exc = "" /\ it.rl.same # 1 THEN "bad:reloaded-function-differs" ELSE "",
+              IF okd # {} /\ it.rl.exc = "" /\ it.d[6].exc = "" /\ it.rl.v # it.d[6].v THEN "bad:reloaded-function-value" ELSE "",    \* d[6]: optimisation level 2, CSE on
               IF okd = {} THEN "unk" ELSE IF lib \/ exact THEN "" ELSE "unk">>)
 CheckEv(e) ==
     IF e.r.exc # "" THEN "bad:harness:" \o e.r.exc
     ELSE LET n == Len(e.r.items)
              env == [q \in {"x", "y"} |-> Val(e.c[q], [z \in {} |-> VUndef])]
-             rs == [i \in 1..n |-> One(e.r.items[i], e.c.ts[i], env)]
+             rs == [i \in 1..n |-> One(e.r.items[i], e.c.ts[i], env, e.c.edge)]
              bads == {i \in 1..n : rs[i] \notin {"", "unk"}}
              vec == e.r.vec
              single(k) == e.r.items[vec.idx[k]].d[8].v            \* opt 3, cse on
